@@ -529,6 +529,9 @@ func (fg *FuncGen) assumeLoaded(t TTerm, typ types.Type, p *Ptr) {
 	if w := fg.g.WF(typ, t.S); w != "" {
 		fg.assume(w)
 	}
+	if t.Sort == "Val" {
+		fg.assume("(=> c18.ih (val.finite " + t.S + "))")
+	}
 	wm := fg.famIn(fg.st, "wm")
 	root := ""
 	if p != nil {
@@ -735,6 +738,7 @@ func (fg *FuncGen) makeInterface(v *ssa.MakeInterface) {
 		fmt.Fprintf(os.Stderr, "BOX %s %s %s\n", shortKey(fg.key), xt.String(), g.pos(v.Pos()))
 	}
 	if g.SortOf(v.Type()) == "Val" {
+		fg.carrierObligations(v, xt, x)
 		if c := g.valCtor(xt, x.S); c != "" {
 			if strings.HasPrefix(c, "(VStr ") {
 				if _, isConst := v.X.(*ssa.Const); !isConst {
@@ -1022,4 +1026,39 @@ func (fg *FuncGen) assumeTypeInv(t types.Type, ref string, cond string) {
 	}
 	_ = cond
 	fg.assume("(=> " + cond + " " + fg.typeInvTerm(ti, t, ref) + ")")
+}
+
+// carrierObligations (C18): a value the library itself turns into an `any` is a JSON carrier (bool, string, a
+// number type, []any, map[string]any), and a decimal or float it creates is finite provided every value it
+// received is (c18.ih).
+func (fg *FuncGen) carrierObligations(v *ssa.MakeInterface, xt types.Type, x TTerm) {
+	if !strings.Contains(fg.key, "/internal/evaluator.") {
+		return
+	}
+	tags := []string{"C18"}
+	ok := false
+	switch u := types.Unalias(xt).Underlying().(type) {
+	case *types.Basic:
+		ok = u.Info()&(types.IsBoolean|types.IsString|types.IsInteger|types.IsFloat) != 0
+	case *types.Slice:
+		ok = isAny(u.Elem())
+	case *types.Map:
+		if b, isb := u.Key().Underlying().(*types.Basic); isb && b.Kind() == types.String {
+			ok = isAny(u.Elem())
+		}
+	}
+	if isNamed(xt, decPkg, "Decimal") || isNamed(xt, "encoding/json", "Number") {
+		ok = true
+	}
+	goal := "false"
+	if ok {
+		goal = "true"
+	}
+	fg.obl("carrier", "", v.Pos(), tags, goal, "a value turned into `any` here has a JSON carrier type ("+xt.String()+")")
+	switch {
+	case isNamed(xt, decPkg, "Decimal"):
+		fg.obl("finite", "", v.Pos(), tags, "(=> c18.ih (dec.isfin "+x.S+"))", "a decimal result is finite when every value received is")
+	case x.Sort == "F64":
+		fg.obl("finite", "", v.Pos(), tags, "(=> c18.ih (and (not (f64.isnan "+x.S+")) (not (f64.isinf "+x.S+"))))", "a float64 result is finite when every value received is")
+	}
 }
